@@ -600,7 +600,7 @@ PROPS = {
                   lambda prog, tier: errlost.run(prog, scope_funcs={prog.require_fn("main", unit="esolver/esolver.c").key, prog.require_fn("QSexact_print_sol").key,
                                                                    prog.require_fn("QSexact_solver").key}, floor=3),
                   lambda prog, tier: opencheck.run(prog, scope=lambda f: f.unit.startswith("esolver/") or f.name in ("QSexact_print_sol", "mpq_QSwrite_basis", "mpq_ILLlib_writebasis", "mpq_QSread_prob", "mpq_ILLlib_readbasis")),
-                  lambda prog, tier: esolver.run_statusword(prog), lambda prog, tier: esolver.run_bgate(prog), lambda prog, tier: signedidx.run(prog), lambda prog, tier: nulterm.run(prog),
+                  lambda prog, tier: esolver.run_statusword(prog), lambda prog, tier: esolver.run_bgate(prog), lambda prog, tier: esolver.run_ftype(prog), lambda prog, tier: signedidx.run(prog), lambda prog, tier: nulterm.run(prog),
                   lambda prog, tier: esolver.run_nzfilter(prog),
                   lambda prog, tier: shell.run(prog, shared_eff(prog)),
                   lambda prog, tier: exact.run(prog, {"CERT": {"roots": ["QSexact_print_sol"], "closure": False}, "TESTS": {"roots": ["QSexact_print_sol"], "closure": True}}),
@@ -799,7 +799,7 @@ _ADD = {
                          "esolver's main; exit-condition analysis of the print loops",
             "explanation": " (R-FMT) no row / column name is used as a format string; (R-PAIR on esolver) the solution file is closed on every path; "
                            "(R-FULLSCAN) the print loops of QSexact_print_sol are exhaustive; R-NZFILTER follows the arrays into print helpers. (R-SIGNEDIDX) no declared table is subscripted with a plain char (a byte >= 0x80 of a path or an input line would be a negative "
-                           "index): the value is converted to an unsigned type or tested against a lower bound first. (R-NULTERM) the line buffer that the bzip2 branch of EGioGets fills by raw reads is terminated on every path that returns it. (R-BGATE) the basis file of -b is written only behind a test of the solve status against OPTIMAL (or of the problem's basis)."},
+                           "index): the value is converted to an unsigned type or tested against a lower bound first. (R-NULTERM) the line buffer that the bzip2 branch of EGioGets fills by raw reads is terminated on every path that returns it. (R-BGATE) the basis file of -b is written only behind a test of the solve status against OPTIMAL (or of the problem's basis). (R-FTYPE) the tokeniser call that splits the file name for the extension test has an empty comment set."},
     "_TRUNC": {},
     "C20": {"explanation": " The handler variables tested by QSlogv must have process-wide storage duration: a thread-local handler would leave every "
                            "other thread of the host on the stderr branch."},
